@@ -71,7 +71,7 @@ def splice(files, path, var_name, var_lines):
     return out
 
 
-def include_task(tname, kbits):
+def include_task(tname, kbits, prop='C14'):
     tree = TREES[tname]
     res = TaskResult('include:%s' % tname)
     prof = common.FuncProfile()
@@ -209,7 +209,7 @@ def include_task(tname, kbits):
             if okc:
                 res.inconc('include %s: counterexample %r did not reproduce' % (tname, setting))
             else:
-                path = common.write_replay('C14', 'include_%s' % tname, dict(kind='include', property='C14', setting=setting,
+                path = common.write_replay(prop, 'include_%s' % tname, dict(kind='include', property=prop, setting=setting,
                                            files={k: v for k, v in tree['fixed'].items()}, candidates={k: v[0] for k, v in tree['cands'].items()},
                                            what='result differs from every legitimately spliced program', real=[got[0], got[1].hex() if got[0] == 'ok' else got[1:3]]))
                 res['violations'].append(dict(harness='include', tree=tname, kind='not-the-spliced-program', setting=setting,
